@@ -140,7 +140,23 @@ where
     if cost_to_free == 0 {
       return (Vec::new(), 0);
     }
-    self.state.lock().main.evict_items(cost_to_free, self.main_prot_capacity)
+    let mut state = self.state.lock();
+    let (mut victims, mut freed) = state
+      .main
+      .evict_items(cost_to_free, self.main_prot_capacity);
+    // Keys still in the admission window are resident too. If the main segment
+    // cannot cover the request, fall back to the window's LRU end; otherwise
+    // those keys could never be nominated and stayed in the cache for good.
+    while freed < cost_to_free {
+      match state.window.pop_back() {
+        Some((key, cost)) => {
+          freed += cost;
+          victims.push(key);
+        }
+        None => break,
+      }
+    }
+    (victims, freed)
   }
 
   fn clear(&self) {
